@@ -336,7 +336,7 @@ func H_C01_MultiSigWalk() {
 	sets := []uint32{0, VER_NULLFAIL, VER_NULLDUMMY, VER_DERSIG | VER_STRICTENC, VER_LOW_S, VER_WITNESS_PUBKEY, VER_CONST_SCRIPTCODE,
 		VER_DERSIG | VER_STRICTENC | VER_LOW_S | VER_NULLDUMMY | VER_NULLFAIL | VER_WITNESS_PUBKEY | VER_CONST_SCRIPTCODE | VER_MINDATA}
 	if zzverif.Tier() > 0 {
-		sets = append(sets, VER_NULLFAIL|VER_NULLDUMMY, VER_NULLFAIL|VER_STRICTENC, VER_NULLFAIL|VER_CONST_SCRIPTCODE, VER_DERSIG, VER_STRICTENC, VER_MINDATA)
+		sets = append(sets, VER_NULLFAIL|VER_NULLDUMMY, VER_NULLFAIL|VER_STRICTENC, VER_NULLFAIL|VER_CONST_SCRIPTCODE)
 	}
 	flags := sets[zzverif.Enum("flag-set", len(sets))]
 	sv := zzverif.Enum("sigversion", 2)
